@@ -26,6 +26,7 @@ EXPLANATION = (
     "conditions of each edge kind compared with the walker (T12)."
 )
 NOT_DECIDED = "that recorded specifier text / attributes / resolved targets equal what the source declares under an arbitrary resolver; media-type dispatch outcomes; that nothing unreachable is present"
+CONFIGS = ["default", "nofastcheck"]  # thorough tier also analyses the build without fast_check / symbols
 ASSUMPTIONS = []
 
 EDGE_FIELDS = {
